@@ -173,11 +173,11 @@ pub fn raw_columns<const N: usize>(e: &[REntry; N]) -> [[u64; N]; 4] {
     let mut last = 0u64;
     let mut i = 0;
     while i < N {
-        raw[0][i] = e[i].tile_id - last;
+        raw[0][i] = e[i].tile_id.wrapping_sub(last);
         last = e[i].tile_id;
         raw[1][i] = e[i].run_length as u64;
         raw[2][i] = e[i].length as u64;
-        raw[3][i] = if i > 0 && e[i].offset == e[i - 1].offset + e[i - 1].length as u64 { 0 } else { e[i].offset + 1 };
+        raw[3][i] = if i > 0 && e[i].offset == e[i - 1].offset.wrapping_add(e[i - 1].length as u64) { 0 } else { e[i].offset.wrapping_add(1) };
         i += 1;
     }
     raw
